@@ -111,7 +111,7 @@ class Interp:
         self._agg_cache = {}
 
     # ------------------------------------------------------------------ exploration
-    def explore(self, harness, max_paths=None, time_cap=None, prefix=(), stop_at_first=False, deadline=None):
+    def explore(self, harness, max_paths=None, time_cap=None, prefix=(), stop_at_first=False, deadline=None, stop_msg=None):
         """harness(interp) is re-run once per path. Returns list of Violation."""
         work = [list(prefix)]
         violations = []
@@ -154,7 +154,7 @@ class Interp:
                 v.decisions = list(self.decisions[:self.dpos])
                 v.trace = list(self.trace)
                 violations.append(v)
-                if stop_at_first:
+                if stop_at_first and (stop_msg is None or v.msg == stop_msg):
                     self.solver.pop()
                     self.solver.push()
                     return violations
